@@ -151,6 +151,11 @@ class KeysView(list):
         return self._set().isdisjoint(other)
 
 
+def _builtins_mod():
+    import builtins
+    return builtins
+
+
 class AGen:
     """A generator object that has not run yet (created by calling a generator function)."""
     def __init__(self, info, env, module):
@@ -238,8 +243,47 @@ class ALazy:
     def __repr__(self):
         return f'<{self.kind} over {self.src!r}>'
 
+    pos = 0
+
+    def seq(self):
+        return self.src.items if isinstance(self.src, AList) else self.src
+
+    def steppable(self):
+        """iter() over a list-like value whose every position is known: it can be advanced one item at a time."""
+        if self.kind == 'iter' and isinstance(self.src, (list, tuple)):
+            return True
+        return self.kind == 'iter' and isinstance(self.src, AList) and not self.src.has_var() and (
+            self.src.kind in ('list', 'tuple', 'bytes', 'bytearray')
+            or (getattr(self.src, 'cls', None) is not None or self.src.kind[:1].isupper()))         # (an instance of a list subclass)
+
     def drive(self, interp, node, cb):
         if self.done:
+            return
+        if self.kind == 'pull':
+            # an iterator object of the program (a class with __next__): one call of __next__ per item until it raises
+            # StopIteration.  Nothing is latched here: whether a finished iterator stays finished is the class's business.
+            n = 0
+            while True:
+                try:
+                    v = interp.pull_next(self.src, node)
+                except AbsRaise as ex:
+                    if ex.exc == 'StopIteration':
+                        return
+                    raise
+                n += 1
+                if n > 4096:
+                    raise AbsRaise('NonTermination', node)
+                cb(v)
+        if self.kind == 'iter' and self.steppable():
+            # iter(list): walked by position over the list as it is at each step; finished for good once it has run off the end
+            items = self.seq()
+            while self.pos < len(items):
+                v = items[self.pos]
+                self.pos += 1
+                if self.pos > 4096:
+                    raise AbsRaise('NonTermination', node)
+                cb(v)
+            self.done = True
             return
         if self.kind == 'callsentinel':
             # iter(callable, sentinel): call until the result equals the sentinel (resumable: each drive goes on calling)
@@ -276,6 +320,8 @@ class ALazy:
                 keep = interp.truth(interp.apply(self.fn, [v], {}, node) if self.fn is not None else v, node)
                 if keep == (self.kind == 'filter'):
                     cb(v)
+            elif self.kind == 'flatten':
+                interp.for_each(v, node, cb)
             elif self.kind == 'enumerate':
                 cb(AList([counter[0] + (self.fn or 0), v], 'tuple'))
                 counter[0] += 1
@@ -994,6 +1040,12 @@ class AbsInt:
         """Run generator objects (also inside tuples/lists) to completion: what a caller doing list(gen) would see."""
         if isinstance(v, AGen):
             return AList(self.run_generator(v), 'generator')
+        if isinstance(v, ALazy) or (isinstance(v, AObj) and v.cls is not None and self.p.lookup_method(v.cls, '__next__')[1] is not None
+                                    and self.p.lookup_method(v.cls, '__iter__')[1] is not None):
+            # an iterator object (map / filter / iter(...) or a class of the program with __next__): the items it hands out
+            out = []
+            (v if isinstance(v, ALazy) else ALazy('pull', None, v)).drive(self, None, out.append)
+            return AList(out, 'generator')
         if isinstance(v, tuple):
             return tuple(self.consume(x) for x in v)
         if isinstance(v, list):
@@ -1122,9 +1174,17 @@ class AbsInt:
             cache[info.qname] = res
         return res
 
-    def _pure_body(self, info, seen):
+    def pure_generator(self, info):
+        """A generator function whose body only computes (no stores outside its frame, no calls with effects): running it
+        ahead of its consumer cannot be told from running it step by step."""
+        cache = self.__dict__.setdefault('_pure_gen_cache', {})
+        if info.qname not in cache:
+            cache[info.qname] = _is_generator(info.node) and self._pure_body(info, set(), generator=True)
+        return cache[info.qname]
+
+    def _pure_body(self, info, seen, generator=False):
         fn = info.node
-        if fn.decorator_list or _is_generator(fn) or info.qname in self.summaries:
+        if fn.decorator_list or (_is_generator(fn) and not generator) or info.qname in self.summaries:
             return False
         a = fn.args
         local = {x.arg for x in a.posonlyargs + a.args + a.kwonlyargs}
@@ -1138,6 +1198,8 @@ class AbsInt:
         okfuncs = set()
         for n in ast.walk(fn):
             if n is fn:
+                continue
+            if generator and isinstance(n, ast.Yield):
                 continue
             if isinstance(n, (ast.Yield, ast.YieldFrom, ast.Await, ast.Global, ast.Nonlocal, ast.With, ast.AsyncWith, ast.Lambda,
                               ast.FunctionDef, ast.AsyncFunctionDef, ast.ClassDef, ast.Delete, ast.Import, ast.ImportFrom,
@@ -1247,7 +1309,18 @@ class AbsInt:
     def run_generator(self, g: 'AGen', on_yield=None):
         """Run a generator to completion.  Without a callback the yielded values are collected (eager consumption:
         list(), extend(), sorted()...); with a callback it is called at every yield (lazy for-loop / with-statement)."""
+        if getattr(g, 'buffer', None) is not None:
+            # a generator that only computes, run ahead at its first next(): the rest of its items
+            items, g.buffer[:] = list(g.buffer), []
+            if on_yield is None:
+                return items
+            for v in items:
+                on_yield(v)
+            return []
         if g.done:
+            if getattr(g, 'advanced', False):
+                raise Unsupported(f'generator {g.info.qname} is used again after next() took an item from it (resumable generators are '
+                                  f'modelled only when the generator has no effects)')
             return []
         g.done = True
         collected = []
@@ -1454,7 +1527,14 @@ class AbsInt:
                 self.ex_block(st.finalbody, env, m)
                 raise
             self.ex_block(st.finalbody, env, m)
-        elif isinstance(st, (ast.Global, ast.Nonlocal, ast.Import, ast.ImportFrom)):
+        elif isinstance(st, ast.Import):
+            # `import os` inside a function: the name is a local variable bound to the module (modules of the library only; an
+            # import of a module of the program is left to the name lookup as before)
+            for a_ in st.names:
+                top = a_.name.split('.')[0]
+                if top not in self.p.modules and not any(k == top or k.startswith(top + '.') for k in self.p.modules):
+                    env[a_.asname or top] = ExtRef(a_.name if a_.asname else top)
+        elif isinstance(st, (ast.Global, ast.Nonlocal, ast.ImportFrom)):
             pass
         elif isinstance(st, (ast.FunctionDef, ast.AsyncFunctionDef)):
             # a nested function: a closure over the enclosing frame (read access to its variables, current values at call time)
@@ -1852,6 +1932,12 @@ class AbsInt:
             return v.name
         if isinstance(v, tuple) and len(v) == 2 and v[0] == 'excclass':
             return v[1]
+        if isinstance(x, ast.Name) and x.id in env:
+            # a local variable holding an exception class (a parameter `error` given ValueError by the caller)
+            if isinstance(v, type) and issubclass(v, BaseException):
+                return v.__name__
+            if isinstance(v, ClassRef):
+                return v.info.name
         return None
 
     def handler_names(self, h, env, m):
@@ -1894,6 +1980,8 @@ class AbsInt:
             e = e.func
         r = self._exc_class_name(e, env, m)
         if r is not None and '.' in r and '.' not in unparse(e):
+            return r
+        if r is not None and isinstance(e, ast.Name) and e.id in env:
             return r
         return unparse(e)
 
@@ -2147,6 +2235,14 @@ class AbsInt:
                 return True             # an ordinary run (under -O the assert statements it usually guards are gone as well)
             if e.id == '__name__' and m is not None:
                 return m.name           # the module as imported (never run as a script by the properties)
+            if m is not None and len(m.assigns.get(e.id, [])) == 1:
+                # another name for a builtin the module does not fold (`_open = open`): the builtin itself, so that a rule's double
+                # for it applies through the alias
+                st_ = m.assigns[e.id][0]
+                val_ = getattr(st_, 'value', None)
+                if isinstance(val_, ast.Name) and val_.id not in m.assigns and val_.id not in m.functions and val_.id not in m.classes \
+                        and val_.id not in m.imports and callable(getattr(_builtins_mod(), val_.id, None)):
+                    return getattr(_builtins_mod(), val_.id)
             return Opaque(f'global {e.id}')
 
     def _v_Attribute(self, e, env, m):
@@ -2471,6 +2567,11 @@ class AbsInt:
         return self.binop(e.op, self.ev(e.left, env, m), self.ev(e.right, env, m), e)
 
     def binop(self, op, a, b, node):
+        # the open(2) flag constants of the os module are plain integers of the platform
+        if isinstance(a, ExtRef) and a.name.startswith('os.O_') and isinstance(getattr(_os, a.name[3:], None), int):
+            a = getattr(_os, a.name[3:])
+        if isinstance(b, ExtRef) and b.name.startswith('os.O_') and isinstance(getattr(_os, b.name[3:], None), int):
+            b = getattr(_os, b.name[3:])
         if isinstance(op, ast.BitOr) and isinstance(a, (ADict, dict)) and isinstance(b, (ADict, dict)):
             # dict union (3.9+): a new dict, keys of the left operand first, values of the right operand win
             d = dict(a.d if isinstance(a, ADict) else a)
@@ -2744,6 +2845,10 @@ class AbsInt:
             return None
         if isinstance(op, (ast.In, ast.NotIn)):
             res = None
+            if isinstance(b, ExtRef) and b.name in getattr(self, 'ext_maps', {}) and _hashable_const(a):
+                log_event('env', a)
+                res = a in self.ext_maps[b.name]
+                return res if isinstance(op, ast.In) else not res
             if isinstance(b, AList) and not b.has_var() and all(_is_concrete(x) for x in b.items):
                 b = list(b.items)
             if isinstance(b, ADict) and _hashable_const(a):
@@ -2900,6 +3005,16 @@ class AbsInt:
 
     def _v_Subscript(self, e, env, m):
         base = self.ev(e.value, env, m)
+        if isinstance(base, ExtRef) and base.name in getattr(self, 'ext_maps', {}) and not isinstance(e.slice, ast.Slice):
+            # a mapping of the standard library that the rule scripts (os.environ): mapping[key] or KeyError
+            key = self.ev(e.slice, env, m)
+            log_event('env', key)
+            table = self.ext_maps[base.name]
+            if _hashable_const(key) and key in table:
+                return table[key]
+            if _hashable_const(key):
+                raise AbsRaise('KeyError', e, implicit=True)
+            return Opaque(f'{base.name}[symbolic key]')
         if isinstance(e.slice, ast.Slice):
             lo = self.ev(e.slice.lower, env, m) if e.slice.lower else None
             hi = self.ev(e.slice.upper, env, m) if e.slice.upper else None
@@ -3129,13 +3244,31 @@ class AbsInt:
             if fn is not None and _is_generator(fn.node):
                 r = self.call_function(fn, [it], {}, node)
                 return r if isinstance(r, AGen) else None
+            if fn is not None:
+                # __iter__ is an ordinary method: what it hands back is the iterator (called once, as iter() does)
+                r = self.call_function(fn, [it], {}, node)
+                if isinstance(r, (AGen, ALazy)):
+                    return r
+                if isinstance(r, AObj) and r.cls is not None:
+                    if self.p.lookup_method(r.cls, '__next__')[1] is None:
+                        raise AbsRaise('TypeError', node, implicit=True, msg=f'iter() returned non-iterator of type {r.cls.name}')
+                    return ALazy('pull', None, r)
+                return ALazy('iter', None, r)
         return None
+
+    def pull_next(self, obj, node):
+        """One step of an iterator object of the program: obj.__next__()."""
+        o, fn = self.p.lookup_method(obj.cls, '__next__')
+        return self.call_function(fn, [obj], {}, node)
 
     def for_each(self, it, node, cb):
         if isinstance(it, ALazy):
             it.drive(self, node, cb)
             return
         gen = self.as_generator(it, node)
+        if isinstance(gen, ALazy):
+            gen.drive(self, node, cb)
+            return
         if gen is not None:
             self.run_generator(gen, cb)
             return
@@ -3179,12 +3312,13 @@ class AbsInt:
         if isinstance(it, AObj) and it.cls is not None:
             o, fn = self.p.lookup_method(it.cls, '__iter__')
             if fn is not None:
-                r = self.call_function(fn, [it], {}, node)
-                if r is not it:
-                    if isinstance(r, AObj) and r.cls is not None and self.p.lookup_method(r.cls, '__next__')[1] is None:
-                        # iter() returned non-iterator
-                        raise AbsRaise('TypeError', node, implicit=True, msg=f'iter() returned non-iterator of type {r.cls.name}')
-                    return self.iterate(r, node, keep_vars)
+                g = self.as_generator(it, node)
+                if isinstance(g, AGen):
+                    return self.run_generator(g)
+                if isinstance(g, ALazy):
+                    out = []
+                    g.drive(self, node, out.append)
+                    return out
             elif self.p.lookup_method(it.cls, '__getitem__')[1] is None and not any(
                     k.name in ('tuple', 'list', 'dict', 'set', 'frozenset', 'str', 'bytes', 'deque') for k in self.p.mro(it.cls)):
                 raise AbsRaise('TypeError', node, implicit=True, msg=f'{it.cls.name} object is not iterable')
@@ -3386,6 +3520,10 @@ class AbsInt:
     def apply(self, f, args, kwargs, node):
         if id(f) in self.value_summaries:
             return self.value_summaries[id(f)](self, args, kwargs, node)
+        if self.builtin_summaries and type(f).__name__ == 'builtin_function_or_method' and f.__name__ in self.builtin_summaries \
+                and getattr(_builtins_mod(), f.__name__, None) is f:
+            # a builtin reached through another name (_open = open): the rule's double for it applies all the same
+            return self.builtin_summaries[f.__name__](self, args, kwargs, node)
         if isinstance(f, FuncRef):
             return self.call_function(f.info, args, dict(kwargs), node)
         if isinstance(f, tuple) and f and f[0] == 'bound':
@@ -3497,6 +3635,8 @@ class AbsInt:
             if name == '__contains__' and len(args) == 1:
                 r = self.compare(ast.In(), args[0], base, node)
                 return r if r is not None else self.decide(node, 'membership')
+            if name == '__getitem__' and len(args) == 1 and not kwargs and isinstance(base, (ADict, dict, AList, list, tuple)):
+                return self.index(base, args[0], node)          # d.__getitem__(k) is d[k]
             if isinstance(base, (AList, ADict, str)) or (isinstance(base, tuple) and base and base[0] == 'repattern') or hasattr(base, 'segs'):
                 return self.method(base, name, list(args), dict(kwargs), node)
             if not isinstance(base, (Opaque, AObj)):
@@ -3627,6 +3767,10 @@ class AbsInt:
                     return getattr(_struct, key.split('.')[1])(*args)
                 except _struct.error as se:
                     raise AbsRaise('struct.error', node, implicit=True, msg=str(se))
+            if key in ('itertools.chain.from_iterable', 'chain.from_iterable') and len(args) == 1 and isinstance(args[0], (ALazy, AGen)):
+                return ALazy('flatten', None, args[0])          # lazy in both levels: a part is asked for when the one before is used up
+            if key in ('itertools.chain', 'chain') and any(isinstance(a, (ALazy, AGen)) for a in args):
+                return ALazy('flatten', None, AList(list(args), 'tuple'))
             if key in ('itertools.chain.from_iterable', 'chain.from_iterable') and len(args) == 1:
                 out = []
                 for part in self.iterate(args[0], node, keep_vars=True):
@@ -3796,12 +3940,40 @@ class AbsInt:
             return g if g is not None else ALazy('iter', None, src)
         if f is next and args:
             src = args[0]
+            if isinstance(src, ALazy) and src.kind == 'pull':
+                src = src.src
+            if isinstance(src, AObj) and src.cls is not None and self.p.lookup_method(src.cls, '__next__')[1] is not None:
+                try:
+                    return self.pull_next(src, node)
+                except AbsRaise as ex:
+                    if ex.exc == 'StopIteration' and len(args) > 1:
+                        return args[1]
+                    raise
+            if isinstance(src, ALazy) and src.steppable():
+                if not src.done and src.pos < len(src.seq()):
+                    src.pos += 1
+                    return src.seq()[src.pos - 1]
+                src.done = True
+                if len(args) > 1:
+                    return args[1]
+                raise AbsRaise('StopIteration', node, implicit=True)
+            if isinstance(src, AGen) and (getattr(src, 'buffer', None) is not None or (
+                    not src.done and getattr(src, 'env', None) is not None and not src.info.name.startswith('<') and self.pure_generator(src.info))):
+                if getattr(src, 'buffer', None) is None:
+                    src.buffer = self.run_generator(src)
+                if src.buffer:
+                    return src.buffer.pop(0)
+                if len(args) > 1:
+                    return args[1]
+                raise AbsRaise('StopIteration', node, implicit=True)
             if isinstance(src, (AGen, ALazy)):
                 if src.done:
-                    raise Unsupported('next() on an iterator that was already advanced (resumable iterators are not modelled)')
+                    raise Unsupported(f'next() on an iterator that was already advanced (resumable iterators are not modelled): {src!r:.200}')
 
                 def found(v):
                     raise _NextFound(v)
+                if isinstance(src, AGen):
+                    src.advanced = True
                 try:
                     self.for_each(src, node, found)
                 except _NextFound as nf:
